@@ -86,7 +86,7 @@ fn fst_case(case: u64, rng: &mut Rng, rep: &mut Report, thorough: bool) {
     let bytes = match build_fst(&keys, &vals) {
         Ok(b) => b,
         Err(e) => {
-            rep.violation("fst:api-error:build", json!({"error": e, "witness": dict_witness(&keys, &info)}));
+            viol(rep, "fst:api-error:build", json!({"error": e, "witness": dict_witness(&keys, &info)}));
             return;
         }
     };
@@ -94,7 +94,7 @@ fn fst_case(case: u64, rng: &mut Rng, rep: &mut Report, thorough: bool) {
     let dict = match open_fst(bytes, rng) {
         Ok(d) => d,
         Err(e) => {
-            rep.violation("fst:api-error:open", json!({"error": e.to_string(), "witness": dict_witness(&keys, &info)}));
+            viol(rep, "fst:api-error:open", json!({"error": e.to_string(), "witness": dict_witness(&keys, &info)}));
             return;
         }
     };
@@ -258,6 +258,6 @@ fn fst_case(case: u64, rng: &mut Rng, rep: &mut Report, thorough: bool) {
             "first_keys": keys.iter().take(4).map(|k| brief(k)).collect::<Vec<_>>()}));
     }
     for (sig, d) in fails.v {
-        rep.violation(sig, json!({"detail": d, "witness": dict_witness(&keys, &info)}));
+        viol(rep, sig, json!({"detail": d, "witness": dict_witness(&keys, &info)}));
     }
 }
